@@ -504,13 +504,16 @@ fn rewriter_docs() -> Vec<Value> {
     // not the number; judged by statement (the edit replaces the node the rule was asked about), see rewrite_record
     json!({"id": "rw-has", "language": "JavaScript", "rule": {"has": {"kind": "number"}}, "fix": "H"}),
     json!({"id": "rw-in", "language": "JavaScript", "rule": {"inside": {"kind": "array"}}, "fix": "I"}),
+    // a rewriter whose fix widens its edit to the comma before the node: for the first captured node that comma lies
+    // BEFORE the captured text (pattern `foo(0, $$$ARGS)`), and such an edit is not applied
+    json!({"id": "rw-exp", "language": "JavaScript", "rule": {"kind": "identifier", "regex": "^y$"}, "fix": {"template": "Y", "expandStart": {"regex": "^,$"}}}),
   ]
 }
 
 fn rewrite_cases(rng: &mut Rng, thorough: bool) -> Vec<RwCase> {
   let args_pool = ["1", "bar(2)", "x", "bar(bar(3))", "\"é🦀\"", "qux(4, bar(5))", "[6, x1]", "y"];
   let orders: Vec<Vec<usize>> = vec![vec![0], vec![1, 0], vec![0, 1], vec![3, 1, 0], vec![1, 3], vec![2, 4, 0], vec![4], vec![1, 2, 0, 4],
-                                     vec![5], vec![6], vec![1, 5], vec![6, 0]];
+                                     vec![5], vec![6], vec![1, 5], vec![6, 0], vec![7], vec![7, 0], vec![1, 7]];
   let n = if thorough { 400 } else { 60 };
   let mut out = vec![];
   for i in 0..n {
@@ -520,11 +523,27 @@ fn rewrite_cases(rng: &mut Rng, thorough: bool) -> Vec<RwCase> {
     let lead = if rng.chance(1, 3) { "\n  " } else { "" };
     let (pattern, source_var, src) = if i % 3 == 2 {
       ("foo($A)", "$A", format!("{lead}foo({});\n", args[0]))
+    } else if i % 5 == 4 {
+      // the captured text starts behind a comma
+      ("foo(0, $$$ARGS)", "$$$ARGS", format!("{lead}foo(0, {});\n", args.join(sep)))
     } else {
       ("foo($$$ARGS)", "$$$ARGS", format!("{lead}foo({});\n", args.join(sep)))
     };
     let join_by = match i % 4 { 1 => Some("+"), 3 => Some(""), _ => None };
     out.push(RwCase { id: format!("rw{i}"), src, source_var, pattern, order: rng.pick(&orders[..]).clone(), join_by });
+  }
+  // fixed: the expanding rewriter on the FIRST captured node (its widened edit starts before the captured text), in the
+  // middle and at the end; the bare relational rewriters on nested arrays
+  for (k, (pattern, source_var, src, order, join_by)) in [
+    ("foo(0, $$$ARGS)", "$$$ARGS", "foo(0, y, 1, y);\n", vec![7], None),
+    ("foo(0, $$$ARGS)", "$$$ARGS", "foo(0, y, bar(y), y);\n", vec![7, 0], None),
+    ("foo(0, $$$ARGS)", "$$$ARGS", "foo(0, y, 1, y);\n", vec![7], Some("+")),
+    ("foo($$$ARGS)", "$$$ARGS", "foo(y, y, [y]);\n", vec![7], None),
+    ("foo(0, $A)", "$A", "foo(0, y);\n", vec![7], None),
+    ("foo($$$ARGS)", "$$$ARGS", "foo([1, [2]], x, [[3]]);\n", vec![5], None),
+    ("foo($$$ARGS)", "$$$ARGS", "foo([1, [x]], [y]);\n", vec![6, 0], None),
+  ].into_iter().enumerate() {
+    out.push(RwCase { id: format!("rwfixed{k}"), src: src.to_string(), source_var, pattern, order, join_by });
   }
   out
 }
@@ -581,7 +600,8 @@ fn rewrite_record(c: &RwCase) -> Option<Value> {
         if let Some(found) = ast_grep_core::Matcher::match_node_with_env(m, d.clone(), &mut e) {
           let nm2 = ast_grep_core::NodeMatch::new(found, e.into_owned());
           let ed = nm2.make_edit(m, m.fixer.as_ref().unwrap());
-          hits.push(json!({"rw": oi + 1, "pos": ed.position, "del": ed.deleted_length, "ins": bytes(&ed.inserted_text)}));
+          hits.push(json!({"rw": oi + 1, "pos": ed.position, "del": ed.deleted_length, "ins": bytes(&ed.inserted_text),
+                           "by": if docs[*ri]["fix"].is_object() { "expanding-fix" } else { "code" }}));
         }
       }
       let r = d.range();
